@@ -15,6 +15,8 @@ mod c06_layout;
 mod cq_queue;
 mod c14_blk;
 mod c16_net;
+mod c10_mmio;
+mod c13_config;
 
 use proto::RunResult;
 use runner::{Ctx, Tier};
@@ -91,6 +93,8 @@ fn main() {
                 "C05" => c05_notify::run(&ctx),
                 "C14" => c14_blk::run(&ctx),
                 "C16" => c16_net::run(&ctx),
+                "C10" => c10_mmio::run(&ctx),
+                "C13" => c13_config::run(&ctx),
                 _ => {
                     eprintln!("unknown property {}", prop);
                     std::process::exit(2)
